@@ -200,3 +200,221 @@ def bindings(expr):
             walk(k)
     walk(sexpr(expr))
     return out
+
+
+# ------------------------------------------------------------------------------------------------------------------
+# process-qualified names (expr_dot): templates with parameters of several kinds, locals whose types mention them inside
+# sums, products, array indices, field accesses and conditionals, instantiation chains of depth 1..3, and queries P.x for
+# every member and some non-members.  Produces the XML, the lines for drv_dot and what to compare.
+OPS = {0: '+', 1: '*', 2: '[]', 3: '.lo', 4: '.hi', 5: '?:'}
+PREC = {0: 40, 1: 50, 2: 100, 3: 100, 4: 100, 5: 10}
+
+
+def bshow(b, names):
+    """bexp (nested tuples) -> text as expression_t::str prints it"""
+    def pr(b):
+        if b[0] == 'L': return str(b[1]), 110
+        if b[0] == 'V': return names[b[1]], 110
+        o, args = b[1], b[2]
+        p = PREC[o]
+        sub = [pr(a) for a in args]
+        def par(k, strict):
+            t, q = sub[k]
+            return '(%s)' % t if (q < p or (strict and q == p)) else t
+        if o in (0, 1): return '%s %s %s' % (par(0, False), OPS[o], par(1, True)), p
+        if o == 2: return '%s[%s]' % (par(0, False), sub[1][0]), p
+        if o in (3, 4): return '%s%s' % (par(0, False), OPS[o]), p
+        return '%s ? %s : %s' % (par(0, True), par(1, True), par(2, True)), p
+    return pr(b)[0]
+
+
+def btok(b):
+    if b[0] == 'L': return 'L %d' % b[1]
+    if b[0] == 'V': return 'V %d' % b[1]
+    return '( %d %d %s' % (b[1], len(b[2]), ' '.join(btok(a) for a in b[2]))
+
+
+def bparse(toks, i):
+    t = toks[i]
+    if t == 'L': return ('L', int(toks[i + 1])), i + 2
+    if t == 'V': return ('V', int(toks[i + 1])), i + 2
+    assert t == '(', toks[i:i + 4]
+    o, k = int(toks[i + 1]), int(toks[i + 2]); i += 3
+    args = []
+    for _ in range(k):
+        a, i = bparse(toks, i); args.append(a)
+    return ('O', o, args), i
+
+
+def tparse(text):
+    """one result of drv_dot: '-' or '<index> <ty>' -> None | (index, ('R', lo, hi) | ('K', lo, hi) | ('C',) | ('B',) | ('U',) | ('S', owner, n))"""
+    toks = text.split()
+    if toks == ['-']: return None
+    idx, k = int(toks[0]), toks[1]
+    if k in ('R', 'K'):
+        lo, i = bparse(toks, 2); hi, i = bparse(toks, i)
+        return idx, (k, lo, hi)
+    if k == 'S':
+        n, i = bparse(toks, 3)
+        return idx, ('S', int(toks[2]), n)
+    return idx, (k,)
+
+
+class DotGen:
+    MEMBERS = ['a', 'b', 'v', 'w', 'u', 'q']
+
+    def __init__(self, rng):
+        self.rng = rng
+        self.names = {}          # sym id -> name
+        self.nsym = 0
+        self.ndecl = 0
+        # globals usable in bounds and as arguments
+        self.g0 = self.sym('g0'); self.garr = self.sym('garr'); self.gcfg = self.sym('gcfg'); self.tt = self.sym('true'); self.ff = self.sym('false')
+
+    def sym(self, name):
+        self.nsym += 1
+        self.names[self.nsym] = name
+        return self.nsym
+
+    def params(self, suffix=''):
+        """a parameter list: [(kind, sym, name, text)]"""
+        rng, out = self.rng, []
+        kinds = [k for k in ('int', 'arr', 'rec', 'bool') if rng.random() < 0.6] or ['int']
+        rng.shuffle(kinds)
+        if rng.random() < 0.3: kinds.append('int')
+        cnt = {}
+        for k in kinds:
+            cnt[k] = cnt.get(k, 0) + 1
+            nm = {'int': 'n', 'arr': 'lim', 'rec': 'c', 'bool': 'big'}[k] + ('' if cnt[k] == 1 else str(cnt[k])) + suffix
+            s = self.sym(nm)
+            text = {'int': 'const int[0,2000] %s', 'arr': 'const int %s[3]', 'rec': 'const cfg_t %s', 'bool': 'const bool %s'}[k] % nm
+            out.append((k, s, nm, text))
+        return out
+
+    def intexp(self, ps, depth=0):
+        """an integer expression over the parameters ps (and globals)"""
+        rng = self.rng
+        ints = [p for p in ps if p[0] == 'int']; arrs = [p for p in ps if p[0] == 'arr']; recs = [p for p in ps if p[0] == 'rec']; bools = [p for p in ps if p[0] == 'bool']
+        r = rng.random()
+        if depth >= 2 or r < 0.15: return ('L', rng.randrange(1, 60))
+        if r < 0.35 and ints: return ('V', rng.choice(ints)[1])
+        if r < 0.45: return ('V', self.g0)
+        if r < 0.58: return ('O', 2, [('V', rng.choice(arrs)[1] if arrs and rng.random() < 0.8 else self.garr), ('L', rng.randrange(0, 3)) if rng.random() < 0.7 else self.intexp(ps, 2)])
+        if r < 0.70: return ('O', rng.choice([3, 4]), [('V', rng.choice(recs)[1] if recs and rng.random() < 0.8 else self.gcfg)])
+        if r < 0.80 and bools: return ('O', 5, [('V', rng.choice(bools)[1]), self.intexp(ps, depth + 1), self.intexp(ps, depth + 1)])
+        return ('O', rng.choice([0, 0, 1]), [self.intexp(ps, depth + 1), self.intexp(ps, depth + 1)])
+
+    def arg(self, kind, outer):
+        """an argument for a parameter of that kind, over the parameters `outer` of the wrapping instantiation"""
+        rng = self.rng
+        same = [p for p in outer if p[0] == kind]
+        if kind == 'int': return self.intexp(outer, 1)
+        if same and rng.random() < 0.6: return ('V', rng.choice(same)[1])
+        return {'arr': ('V', self.garr), 'rec': ('V', self.gcfg), 'bool': ('V', rng.choice([self.tt, self.ff]))}[kind]
+
+    def model(self):
+        """-> xml, lines for drv_dot (one per process), [(process, [(member name, query text)])], templates (for reports)"""
+        rng = self.rng
+        templates = []
+        for ti in range(rng.choice([1, 2, 2])):
+            ps = self.params()
+            decls = []                                   # (member name, declaration text, ty tokens)
+            pool = list(self.MEMBERS)
+            rng.shuffle(pool)
+            for m in pool[:rng.randrange(2, 6)]:
+                self.ndecl += 1
+                hi = ('O', 0, [self.intexp(ps), ('L', 100 + self.ndecl)])
+                lo = ('L', 0) if rng.random() < 0.7 else self.intexp(ps, 1)
+                decls.append((m, 'int[%s,%s] %s;' % (bshow(lo, self.names), bshow(hi, self.names), m), 'R %s %s' % (btok(lo), btok(hi)), 'int'))
+            def put(x): decls.insert(rng.randrange(len(decls) + 1), x)
+            if rng.random() < 0.7: put(('x', 'clock x;', 'C', 'clock'))
+            if rng.random() < 0.5: put(('flag', 'bool flag;', 'B', 'bool'))
+            if rng.random() < 0.4: put(('fn', 'void fn() { }', 'U', 'other'))
+            if rng.random() < 0.5:
+                n = self.intexp([p for p in ps if p[0] == 'int'], 1) if rng.random() < 0.5 else ('L', rng.randrange(2, 6))
+                at = rng.randrange(len(decls) + 1)
+                decls.insert(at, ('S', 'typedef scalar[%s] S;' % bshow(n, self.names), 'U', 'other'))
+                decls.insert(rng.randrange(at + 1, len(decls) + 1), ('s', 'S s;', 'S %d %s' % (1000 + ti, btok(n)), 'scalar'))
+            nloc = rng.randrange(1, 4)
+            frame = [(nm, 'K L 0 L 2000' if k == 'int' else 'U', 'param-' + k) for k, s, nm, _ in ps] + [(m, tok, kind) for m, _, tok, kind in decls] + [('L%d' % li, 'O', 'loc') for li in range(nloc)]
+            templates.append(dict(idx=ti, ps=ps, decls=decls, frame=frame, nloc=nloc))
+        # instantiation chains
+        sysd, procs = [], []
+        npr = 0
+        for _ in range(rng.randrange(2, 5)):
+            T = rng.choice(templates)
+            depth = rng.choice([1, 1, 2, 3])
+            # level 0 is the template; level k+1 wraps level k
+            mapping = []
+            cur_name, cur_ps = 'T%d' % T['idx'], T['ps']
+            for lv in range(1, depth):
+                npr += 1
+                outer = self.params('_%d' % npr)
+                args = [self.arg(p[0], outer) for p in cur_ps]
+                nm = 'Q%d' % npr
+                sysd.append('%s(%s) = %s(%s);' % (nm, ', '.join(p[3] for p in outer), cur_name, ', '.join(bshow(a, self.names) for a in args)))
+                mapping += [(p[1], a) for p, a in zip(cur_ps, args)]
+                cur_name, cur_ps = nm, outer
+            npr += 1
+            pn = 'P%d' % npr
+            args = [self.arg(p[0], []) for p in cur_ps]
+            sysd.append('%s = %s(%s);' % (pn, cur_name, ', '.join(bshow(a, self.names) for a in args)))
+            mapping += [(p[1], a) for p, a in zip(cur_ps, args)]
+            procs.append(dict(name=pn, pid=2000 + npr, templ=T, mapping=mapping))
+        sysd.append('system %s;' % ', '.join(p['name'] for p in procs))
+        # member numbering for the model
+        ids = {}
+        def mid(name):
+            return ids.setdefault(name, len(ids) + 1)
+        lines, queries = [], []
+        for P in procs:
+            T = P['templ']
+            names = [f[0] for f in T['frame']]
+            probes = list(dict.fromkeys(names + ['g0', 'a', 'zz', 'garr', 'L0', 'L7']))
+            qs = []
+            for m in probes:
+                kind = next((f[2] for f in T['frame'] if f[0] == m), None)
+                if kind in ('other', 'param-arr', 'param-rec', 'param-bool'):
+                    continue
+                text = {'int': 'E<> %s.%s > 0', 'param-int': 'E<> %s.%s > 0', 'clock': 'E<> %s.%s > 1', 'bool': 'E<> %s.%s', 'param-bool': 'E<> %s.%s', 'loc': 'E<> %s.%s', 'scalar': 'E<> %s.%s == %s.%s', None: 'E<> %s.%s > 0'}[kind]
+                qs.append((m, text % ((P['name'], m) * (text.count('%s') // 2))))
+            lines.append('%d %d F %d %s M %d %s Q %d %s' % (P['pid'], 1000 + T['idx'], len(T['frame']), ' '.join('%d %s' % (mid(f[0]), f[1]) for f in T['frame']),
+                                                         len(P['mapping']), ' '.join('%d %s' % (s, btok(a)) for s, a in P['mapping']), len(qs), ' '.join(str(mid(m)) for m, _ in qs)))
+            queries.append((P, qs))
+        esc = lambda t: t.replace('&', '&amp;').replace('<', '&lt;').replace('>', '&gt;')
+        tx = []
+        for T in templates:
+            locs = ''.join('<location id="id%d"><name>L%d</name></location>' % (T['idx'] * 10 + li, li) for li in range(T['nloc']))
+            tx.append('<template><name>T%d</name><parameter>%s</parameter><declaration>%s</declaration>%s<init ref="id%d"/></template>'
+                      % (T['idx'], esc(', '.join(p[3] for p in T['ps'])), esc('\n'.join(d[1] for d in T['decls'])), locs, T['idx'] * 10))
+        xml = ('<?xml version="1.0" encoding="utf-8"?><nta><declaration>const int g0 = 7; const int garr[3] = {11, 12, 13}; typedef struct { int lo; int hi; } cfg_t; const cfg_t gcfg = {1, 9}; int[0,50] a;</declaration>'
+               '%s<system>%s</system></nta>' % (''.join(tx), esc('\n'.join(sysd))))
+        return xml, lines, queries, ids
+
+
+def dot_observed(tree):
+    """the DOT nodes of a query tree dumped under BIND 1: [(index, label, type s-expression)]"""
+    out = []
+    def walk(node):
+        if not isinstance(node, list) or not node: return
+        if node[0] == 'DOT' and len(node) >= 3 and isinstance(node[1], str) and node[1].startswith('.'):
+            m = re.match(r'^\.(\d+):(.*?):(.*)$', node[1])
+            if m:
+                ty = node[2] if isinstance(node[2], list) and not m.group(3) else None
+                out.append((int(m.group(1)), m.group(2), ty))
+        for x in node[1:]:
+            walk(x)
+    walk(sexpr(tree))
+    return out
+
+
+def dot_expected_type(ty, names, pname):
+    """the model's type rendered as the s-expression type_t::str gives (tokenised like sexpr does)"""
+    k = ty[0]
+    q = lambda b: '"%s"' % bshow(b, names)
+    if k == 'R': return ['range', ['int'], q(ty[1]), q(ty[2])]
+    if k == 'K': return ['const', ['range', ['int'], q(ty[1]), q(ty[2])]]
+    if k == 'C': return ['clock']
+    if k == 'B': return ['bool']
+    if k == 'S': return ['label', 'S:', ['label', (pname if ty[1] >= 2000 else 'T%d' % (ty[1] - 1000)) + ':::', ['label', '#', ['range', ['scalar'], '"0"', '"%s - 1"' % bshow(ty[2], names)]]]]
+    return None
